@@ -17,8 +17,8 @@ R = Registry(
         "every access to ScopedRegistry.registry is keyed by self.scopefunc() evaluated in the same call, creation "
         "uses the atomic setdefault(key, createfunc()) and no whole-dict operation exists; ThreadLocalRegistry stores "
         "a threading.local() and only touches its .value attribute, overriding every accessor of its base; "
-        "scoped_session/async_scoped_session.remove closes the current scope's session only if present and then "
-        "clears only the current scope; the registry kind follows scopefunc; the proxy re-resolves self.registry() "
+        "scoped_session/async_scoped_session.remove closes the current scope's session if and only if one is present "
+        "(no further condition on the close) and then clears only the current scope; the registry kind follows scopefunc; the proxy re-resolves self.registry() "
         "on every call and never caches a session on the scoped_session object; registry accessor contracts "
         "(__call__ returns the slot's object on every path, has() is the positive presence test, set() stores its "
         "argument, the constructor initialises what the accessors read); scoped_session.__call__ returns only a "
